@@ -432,7 +432,11 @@ func TestC05(t *testing.T) {
 					break
 				}
 				// Give the sequential reader a moment to hand the frame over.
-				deadline := time.After(wire.Budget)
+				wait := wire.Budget
+				if nearWrap && s > 0 {
+					wait = 200 * time.Millisecond
+				}
+				deadline := time.After(wait)
 				if !desynced {
 					select {
 					case fr := <-receiver.SwitchIn:
@@ -441,6 +445,13 @@ func TestC05(t *testing.T) {
 						fr.ReturnToPool()
 					case <-peering.VerifLinkClosed(recvEnd.Link):
 					case <-deadline:
+						if nearWrap && s < 130 {
+							// The faults may have cost the receiver every frame of the old key
+							// epoch's last stretch: then it cannot recognise the rollover, each
+							// further frame is one more failed frame, and the link has to close
+							// after a hundred of them. Keep sending.
+							break
+						}
 						// In sync, intact, link up - and nothing arrives: stop here, the oracle below reports it.
 						sentBytes = budgetBytes + 1_000_000
 					}
